@@ -170,3 +170,31 @@ Lemma array_by_value_example :
   run_prog documented array_by_value_witness false 60 [] =
   Ok [ORec [(B "inner", VArr [VInt 99; VInt 3; VInt 7]); (B "outer", VArr [VInt 1; VInt 2; VInt 3])]].
 Proof. vm_compute. reflexivity. Qed.
+
+(* ---- positional names: positions 1..n and the aliases -n..-1; an out-of-range position makes both assignments no-ops *)
+Lemma positional_out_of_range_is_noop m p v : pos_idx m p = None -> pos_put_value m p v = m /\ pos_put_name m p v = m.
+Proof. intros H. unfold pos_put_value, pos_put_name. now rewrite H. Qed.
+
+Lemma positional_alias m p : 1 <= p <= Z.of_nat (List.length m) -> pos_idx m (p - Z.of_nat (List.length m) - 1) = pos_idx m p.
+Proof.
+  intros H. unfold pos_idx, arr_inb, zidx, C15.Model.unalias. set (n := Z.of_nat (List.length m)) in *.
+  replace (((1 <=? p - n - 1) && (p - n - 1 <=? n)) || ((p - n - 1 <=? -1) && (- n <=? p - n - 1))) with true by lia.
+  replace (((1 <=? p) && (p <=? n)) || ((p <=? -1) && (- n <=? p))) with true by lia.
+  destruct (1 <=? p - n - 1) eqn:E1; [lia|]. destruct (p - n - 1 <=? -1) eqn:E2; [|lia].
+  destruct (1 <=? p) eqn:E3; [|lia]. f_equal. lia.
+Qed.
+
+(* assignment to a positional value keeps every field name and the field order *)
+Lemma pos_set_value_keys m : forall i v, mkeys (pos_set_value m i v) = mkeys m.
+Proof. induction m as [|[k x] t IH]; intros [|i] v; cbn; auto. f_equal. apply IH. Qed.
+
+Lemma positional_value_assignment_keeps_names m p v : mkeys (pos_put_value m p v) = mkeys m.
+Proof. unfold pos_put_value. destruct (pos_idx m p); [apply pos_set_value_keys|reflexivity]. Qed.
+
+(* emitf @a, @b, ...: exactly one record, holding the present values under those names in order *)
+Lemma emitf_is_one_record fns rec items st vs st1 :
+  rec (TEvals (map snd items)) st = Ok (RVs vs, st1) ->
+  step fns rec (TExec (SEmitF items)) st =
+  Ok (RO ONormal, emit_item (ORec (fold_left (fun r kv => match snd kv with VAbsent => r | v => mput (fst kv) v r end)
+                                             (combine (map fst items) vs) [])) st1).
+Proof. intros H. cbn [step exec_stmt]. unfold evs. rewrite H. reflexivity. Qed.
